@@ -64,6 +64,21 @@ CLAIMED = {
                     'iteration of run_event shows the woken thread exits.',
             'note': OPLEVEL + 'Trusted: Thread.join/cancel_events(C11)/LockingDeque(C16) contracts, fair scheduling.',
             'technique': TECH},
+    'C25': {'text': 'the registry as an insertion-ordered map with an index; class invariant (index and key sequence agree, '
+                    'number == position, ten built-ins first) established by __init__ and preserved by append, __getattr__ '
+                    'and Event.__init__, which bind a new name to len+1 and never change a binding; name_for_signal inverts '
+                    'it; is_inner_signal exact; Event reports the matching pair; writers carry lock-discipline obligations.',
+            'note': 'Trusted: OrderedDict contract, RLock ghost. Readers take no lock and rely on the registry only growing '
+                    '(every mutator shown append-only).', 'technique': TECH + '; lock-discipline obligations for writers'},
+    'C26': {'text': 'dumps/loads executed with json as an assumed contract: keys agree, payload passed through both ways, '
+                    'the name takes the str branch of Event.__init__ and gets this process\'s number.',
+            'note': 'Trusted: json round-trip contract (validated natively on generated values), Event.__init__ (C25).',
+            'technique': TECH},
+    'C32': {'text': 'stripped() executed with strings as opaque values (loop invariant with index map: result = stripped '
+                    'non-blank lines without timestamp, in order; single line stripped the same way) plus automata '
+                    'obligations on the regex literal (every miros trace line matches, prefix code, bodies left alone).',
+            'note': 'Trusted: str.splitlines/strip/len as uninterpreted functions; re._parser tree; strftime format.',
+            'technique': TECH + '; regular-language obligations by automata'},
     'C27': {'text': 'lock-discipline obligations on ThreadSafeAttribute: _is_atomic and the stored value are guarded by the '
                     'attribute lock, every statement shape (read, assignment, augmented assignment) is one critical section, '
                     'releases only by the owner, hold count 0 at the end, monitor invariant restored on release; where these '
